@@ -9,6 +9,8 @@ CONSTANTS
   MaxAdds = 6
   MaxEnds = 3
   AtomicAdd = TRUE
+  SplitGet = FALSE
+  RecheckOnStore = TRUE
   StaleTimers = TRUE
 VIEW View
 INVARIANTS TypeOK LatUnique PendingAgree TimerSane
